@@ -37,7 +37,8 @@ TwoObjOps == {"swap", "fswap", "copy_assign", "move_assign", "ctor_copy", "ctor_
 AllOps == PushOps \cup UncheckedOps \cup TryOps \cup InsertOneOps \cup TwoObjOps \cup
           {"pop_back", "insert_fill", "insert_range", "insert_self", "erase_pos", "erase_range",
            "clear", "resize", "resize_val", "assign_fill", "assign_range", "ctor_default",
-           "ctor_n", "ctor_fill", "ctor_range", "erase_val", "erase_if_odd"}
+           "ctor_n", "ctor_fill", "ctor_range", "erase_val", "erase_if_odd", "at", "front", "back"}
+ReadOps == {"at", "front", "back"}    \* element access with a documented precondition
 
 \* ---- precondition: the call is inside the domain the property quantifies over ---------------
 Pre(op, o, x, s, cap) ==
@@ -49,6 +50,8 @@ Pre(op, o, x, s, cap) ==
       [] op = "insert_range" -> x.p \in 0..n /\ n + Len(x.xs) <= cap
       [] op = "insert_self" -> x.p \in 0..n /\ x.q \in 0..(n - 1) /\ n < cap
       [] op = "erase_pos" -> x.p \in 0..(n - 1)
+      [] op = "at" -> x.p \in 0..(n - 1)
+      [] op \in {"front", "back"} -> n > 0
       [] op = "erase_range" -> x.p \in 0..n /\ x.q \in x.p..n
       [] op \in {"resize", "resize_val", "assign_fill", "ctor_n", "ctor_fill"} -> x.n \in 0..cap
       [] op \in {"assign_range", "ctor_range"} -> Len(x.xs) <= cap
@@ -70,6 +73,9 @@ Tgt(op, o, x, s, cap) ==
       [] op = "erase_pos" -> [els |-> Cut(e, x.p, x.p + 1), ret |-> x.p]
       [] op = "erase_range" -> [els |-> Cut(e, x.p, x.q), ret |-> x.p]
       [] op = "clear" -> [els |-> <<>>, ret |-> 0]
+      [] op = "at" -> [els |-> e, ret |-> e[x.p + 1]]
+      [] op = "front" -> [els |-> e, ret |-> e[1]]
+      [] op = "back" -> [els |-> e, ret |-> e[n]]
       [] op = "resize" -> [els |-> IF x.n <= n THEN SubSeq(e, 1, x.n) ELSE e \o Fill(x.n - n, DefaultVal), ret |-> 0]
       [] op = "resize_val" -> [els |-> IF x.n <= n THEN SubSeq(e, 1, x.n) ELSE e \o Fill(x.n - n, x.v), ret |-> 0]
       [] op \in {"assign_fill", "ctor_fill"} -> [els |-> Fill(x.n, x.v), ret |-> 0]
